@@ -6,6 +6,7 @@ from ..model import AnalysisError, body_nodes
 from ..facts import facts_at
 from ..guards import partial_sites, discharge_reduction
 from ..signatures import name_uses
+from ..pattern import pmatch, pstmt, text, find
 
 EXPLANATION = (
     "Wiring and skeleton agreement decided from source: (FWD-registry) every attribute of DtProxy / ReProxy is bound to the "
@@ -38,7 +39,9 @@ def check(ctx):
     for proxy, mod, bind in (("DtProxy", dtm, "pos"), ("ReProxy", rem, "string")):
         init = repo.fn(f"dataiter.vector.{proxy}.__init__")
         vecp = init.params[1]
-        wraps = [n for n in body_nodes(init.node) if isinstance(n, ast.Assign) and norm(n.targets[0]) == "wrap"]
+        wraps = [n for n in body_nodes(init.node) if isinstance(n, ast.Assign) and isinstance(n.value, ast.Lambda)
+                 and isinstance(n.targets[0], ast.Name)]
+        wname = norm(wraps[0].targets[0]) if wraps else "wrap"
         ok = False
         if wraps and isinstance(wraps[0].value, ast.Lambda):
             body = wraps[0].value.body
@@ -54,7 +57,7 @@ def check(ctx):
         entries = {}
         for n in body_nodes(init.node):
             if isinstance(n, ast.Assign) and isinstance(n.targets[0], ast.Attribute) and norm(n.targets[0].value) == init.params[0] \
-                    and isinstance(n.value, ast.Call) and norm(n.value.func) == "wrap" and n.value.args:
+                    and isinstance(n.value, ast.Call) and norm(n.value.func) == wname and n.value.args:
                 entries[n.targets[0].attr] = (n.value.args[0], n)
         for attr, (target, node) in sorted(entries.items()):
             d = repo.dotted(init, target)
@@ -111,18 +114,25 @@ def check(ctx):
                 ctx.ob("SIB-17", f, f"{k}={v}", re_calls[0], ok, "keyword carries the parameter of the same name" if ok else
                        f"keyword {k} receives {v}", nontrivial=False)
         loops = [n for n in ast.walk(f.node) if isinstance(n, ast.For)]
-        ok = len(loops) == 1 and norm(loops[0].iter) == "np.flatnonzero(~na)"
+        preps = [n for n in body_nodes(f.node) if isinstance(n, ast.Assign) and isinstance(n.targets[0], ast.Tuple)
+                 and len(n.targets[0].elts) == 2 and isinstance(n.value, ast.Call) and norm(n.value.func) == "_prep"]
+        outn = norm(preps[0].targets[0].elts[0]) if preps else "out"
+        nan = norm(preps[0].targets[0].elts[1]) if preps else "na"
+        ok = len(loops) == 1 and norm(loops[0].iter) == f"np.flatnonzero(~{nan})"
         ctx.ob("SIB-17", f, f"loop over {norm(loops[0].iter) if loops else '?'}", loops[0] if loops else f.node, ok,
                "only non-missing positions are matched" if ok else "the loop does not run over exactly the non-missing positions",
                clause="a missing value elsewhere")
-        preps = [c for _, c in calls_in(f) if norm(c.func) == "_prep"]
         rets = [n for n in body_nodes(f.node) if isinstance(n, ast.Return)]
-        ok = len(preps) == 1 and any(norm(r.value).startswith("Vector.fast(out") for r in rets if r.value is not None)
+        ok = len(preps) == 1 and any(norm(r.value).startswith(f"Vector.fast({outn}") for r in rets if r.value is not None)
+        if len(loops) == 1:
+            li = norm(loops[0].target)
+            st = [n for n in ast.walk(loops[0]) if isinstance(n, ast.Assign) and isinstance(n.targets[0], ast.Subscript)]
+            ok = ok and bool(st) and all(norm(x.targets[0]) == f"{outn}[{li}]" for x in st)
         ctx.ob("SIB-17", f, "out, na = _prep(...); return Vector.fast(out, ...)", f.node, ok,
                "missing positions keep the prepared default" if ok else "output is not the prepared array", nontrivial=False)
     ctx.count("regex functions", n_re, 7)
     prep = repo.fn("dataiter.regex._prep")
-    ok = any("na_object" in norm(n.value) and "==" in norm(n.value) for n in body_nodes(prep.node) if isinstance(n, ast.Assign)) and \
+    ok = any(pmatch(f"{prep.params[0]} == dtypes.string.na_object", n.value) is not None for n in body_nodes(prep.node) if isinstance(n, ast.Assign)) and \
         any(repo.dotted(prep, c.func) == "numpy.full_like" and len(c.args) >= 2 and norm(c.args[1]) == prep.params[2] for _, c in calls_in(prep))
     ctx.ob("SIB-17", prep, "out = full_like(string, default); na = string == na_object", prep.node, ok,
            "default fill and NA mask of the string dtype" if ok else "_prep no longer prepares default-filled output and the NA mask", nontrivial=False)
@@ -155,7 +165,7 @@ def check(ctx):
         ctx.ob("SIB-18", f, "vector forwarded to _pull_int", calls[0], ok, "x is forwarded" if ok else "x is not forwarded", nontrivial=False)
     q = repo.fn("dataiter.dt.quarter")
     t = " ".join(norm(n) for n in q.node.body if not isinstance(n, ast.Expr))
-    ok = "np.ceil(month(x) / 3)" in t
+    ok = f"np.ceil(month({q.params[0]}) / 3)" in t
     ctx.ob("SIB-18", q, "quarter = ceil(month / 3)", q.node, ok, "quarter derived from the month extractor" if ok else
            "quarter is not ceil(month(x) / 3)", clause="quarter")
     ctx.count("dt extractors via _pull_int", n_ex, 9)
@@ -163,25 +173,31 @@ def check(ctx):
     ok = any(norm(c.func) == "_pull_str" and "strftime(format)" in norm(c) for _, c in calls_in(ts))
     ctx.ob("SIB-18", ts, "to_string -> strftime(format)", ts.node, ok, "format is forwarded to strftime" if ok else "to_string does not call strftime(format)", nontrivial=False)
     rp = repo.fn("dataiter.dt.replace")
-    ok = any("replace(**kwargs" in norm(c) for _, c in calls_in(rp))
+    ok = any(isinstance(c.func, ast.Attribute) and c.func.attr == "replace" and any(k.arg is None for k in c.keywords) for _, c in calls_in(rp))
     ctx.ob("SIB-18", rp, "replace -> datetime.replace(**kwargs)", rp.node, ok, "components are forwarded to datetime.replace" if ok else "replace does not forward components", nontrivial=False)
     loops = [n for n in ast.walk(rp.node) if isinstance(n, ast.For) and "flatnonzero" in norm(n.iter) or
              (isinstance(n, ast.For) and isinstance(n.iter, ast.Call) and norm(n.iter.func) == "enumerate")]
     for l in [n for n in ast.walk(rp.node) if isinstance(n, ast.For)]:
-        stores = [n for n in ast.walk(l) if isinstance(n, ast.Assign) and isinstance(n.targets[0], ast.Subscript) and norm(n.targets[0].value) == "out"]
+        rets_r = [n for n in body_nodes(rp.node) if isinstance(n, ast.Return) and isinstance(n.value, ast.Name)]
+        outn = rets_r[-1].value.id if rets_r else "out"
+        stores = [n for n in ast.walk(l) if isinstance(n, ast.Assign) and isinstance(n.targets[0], ast.Subscript) and norm(n.targets[0].value) == outn]
         if not stores:
             continue
+        kwn = [n for n in body_nodes(rp.node) if isinstance(n, ast.Assign) and isinstance(n.value, ast.DictComp) and "locals()" in norm(n.value)]
+        kwname = norm(kwn[0].targets[0]) if kwn else "kwargs"
         pos = norm(stores[0].targets[0].slice)
         vec_idx = {norm(n.slice) for n in ast.walk(l) if isinstance(n, ast.Subscript) and isinstance(n.value, ast.Subscript)
-                   and norm(n.value.value) == "kwargs"}
+                   and norm(n.value.value) == kwname}
         ok = vec_idx <= {pos} and bool(vec_idx)
         ctx.ob("SIB-19", rp, f"out[{pos}] built from vector arguments indexed {sorted(vec_idx)}", stores[0], ok,
                "vector arguments are read at the vector position that is written" if ok else
                f"the result for position {pos} uses argument elements at {sorted(vec_idx - {pos})}: with a NaT before a valid element "
                f"the components come from another position", clause="all replace arguments (scalar or vector)")
-        src_idx = {norm(n.slice) for n in ast.walk(stores[0].value) if isinstance(n, ast.Subscript) and norm(n.value) in ("xobj", "x")}
-        xo = [n for n in body_nodes(rp.node) if isinstance(n, ast.Assign) and norm(n.targets[0]) == "xobj"]
-        full = bool(xo) and norm(xo[0].value) in ("x.astype(object)",)
+        xo = [n for n in body_nodes(rp.node) if isinstance(n, ast.Assign) and isinstance(n.targets[0], ast.Name)
+              and ".astype(object)" in norm(n.value)]
+        xon = norm(xo[0].targets[0]) if xo else "xobj"
+        src_idx = {norm(n.slice) for n in ast.walk(stores[0].value) if isinstance(n, ast.Subscript) and norm(n.value) in (xon, rp.params[0])}
+        full = bool(xo) and norm(xo[0].value) in (f"{rp.params[0]}.astype(object)",)
         ok = (src_idx <= {pos} and full) or (not full and src_idx and src_idx != {pos})
         ctx.ob("SIB-19", rp, f"source element {sorted(src_idx)} of {norm(xo[0].value) if xo else '?'}", stores[0], bool(ok),
                "the element replaced is the one at the written position" if ok else
@@ -201,14 +217,18 @@ def check(ctx):
         ctx.ob("SIB-19", f, "scalar -> one-element vector -> [0]", sc[0] if sc else f.node, ok,
                "scalar input is handled as a one-element vector" if ok else "scalar branch does not re-enter with [x] and return element 0",
                clause="scalar arguments behave like one-element vectors")
-        nas = [n for n in body_nodes(f.node) if isinstance(n, ast.Assign) and norm(n.targets[0]) == "na"]
         want = f"np.isnat({x})" if f.name.startswith("_pull") else f"{x} == dtypes.string.na_object"
-        ok = len(nas) == 1 and norm(nas[0].value) == want
+        nas = [n for n in body_nodes(f.node) if isinstance(n, ast.Assign) and isinstance(n.targets[0], ast.Name) and norm(n.value) == want]
+        ok = len(nas) == 1
+        NAV = norm(nas[0].targets[0]) if nas else "na"
         ctx.ob("SIB-19", f, norm(nas[0]) if nas else "na = ...", nas[0] if nas else f.node, ok,
                "missing positions are those of the input" if ok else f"NA mask is not {want}", clause="a missing value at every NaT")
         stores = [n for n in body_nodes(f.node) if isinstance(n, ast.Assign) and isinstance(n.targets[0], ast.Subscript)
-                  and norm(n.targets[0].value) == "out"]
-        ok = bool(stores) and all(norm(s.targets[0].slice) == "~na" and f"{x}[~na]" in norm(s.value) for s in stores)
+                  and isinstance(n.targets[0].value, ast.Name)]
+        rets_f = [n for n in body_nodes(f.node) if isinstance(n, ast.Return) and n.value is not None]
+        outs = {y.id for r_ in rets_f for y in ast.walk(r_.value) if isinstance(y, ast.Name)}
+        stores = [n for n in stores if n.targets[0].value.id in outs]
+        ok = bool(stores) and all(norm(s_.targets[0].slice) == f"~{NAV}" and f"{x}[~{NAV}]" in norm(s_.value) for s_ in stores)
         ctx.ob("SIB-19", f, norm(stores[0]) if stores else "out[~na] = f(x[~na])", stores[0] if stores else f.node, ok,
                "results of the non-missing elements are stored at the non-missing positions" if ok else
                "results are not stored from x[~na] into out[~na]", clause="at every non-missing position what datetime gives")
